@@ -24,6 +24,9 @@ pub struct Case {
     pub down_pieces: u8,
     /// client transport buffer
     pub transport_kib: u8,
+    /// the destination ends its stream right behind its last piece, while it still refuses the upload
+    #[serde(default)]
+    pub dest_ends: bool,
 }
 
 fn pat(tag: u8, off: usize, len: usize) -> Vec<u8> {
@@ -38,21 +41,25 @@ impl Suite for BackPressureSuite {
         "bidirectional-back-pressure"
     }
     fn rule(&self) -> String {
-        "a CONNECT tunnel on a real HTTP/1.1 or HTTP/2 session in memory (virtual clock) to a scripted destination that accepts no upload byte for 20 s; the client writes 512-4096 KiB as fast as the tunnel takes them (so every queue between client and destination fills up) and reads concurrently; meanwhile the destination sends 1-512 KiB in 1-8 pieces; oracle: the whole download reaches the client within 5 virtual seconds although the upload direction is blocked, and once the destination accepts again the upload arrives completely and intact; non-trivial = every case".into()
+        "a CONNECT tunnel on a real HTTP/1.1 or HTTP/2 session in memory (virtual clock) to a scripted destination that accepts no upload byte for 20 s; the client writes 512-4096 KiB as fast as the tunnel takes them (so every queue between client and destination fills up) and reads concurrently; meanwhile the destination sends 1-512 KiB in 1-8 pieces (and, in half of the cases, ends its stream right behind the last one); oracle: the whole download reaches the client within 5 virtual seconds although the upload direction is blocked, and once the destination accepts again the upload arrives completely and intact; non-trivial = every case".into()
     }
     fn strategy(&self, _: Tier) -> BoxedStrategy<Case> {
-        (any::<bool>(), 512u16..4096, 1u16..512, 1u8..=8, prop_oneof![Just(4u8), Just(16u8), Just(64u8)])
-            .prop_map(|(h2, up_kib, down_kib, down_pieces, transport_kib)| Case { h2, up_kib, down_kib, down_pieces, transport_kib })
+        (any::<bool>(), 512u16..4096, 1u16..512, 1u8..=8, prop_oneof![Just(4u8), Just(16u8), Just(64u8)], any::<bool>())
+            .prop_map(|(h2, up_kib, down_kib, down_pieces, transport_kib, dest_ends)| Case { h2, up_kib, down_kib, down_pieces, transport_kib, dest_ends })
             .boxed()
     }
     fn cases(&self, tier: Tier) -> u64 {
         tier.pick(960, 24_000)
     }
     fn classify(&self, c: &Case) -> Vec<&'static str> {
-        vec![if c.h2 { "h2" } else { "h1" }, "nontrivial"]
+        let mut v = vec![if c.h2 { "h2" } else { "h1" }, "nontrivial"];
+        if c.dest_ends {
+            v.push("destination-ends-behind-its-last-piece");
+        }
+        v
     }
     fn required_classes(&self) -> Vec<&'static str> {
-        vec!["nontrivial", "h1", "h2"]
+        vec!["nontrivial", "h1", "h2", "destination-ends-behind-its-last-piece"]
     }
     fn check(&self, c: &Case) -> Verdict {
         let c = c.clone();
@@ -109,12 +116,20 @@ impl Suite for BackPressureSuite {
             let piece = down_total.div_ceil(c.down_pieces as usize).max(1);
             let origin2 = origin.clone();
             let down2 = down_data.clone();
+            let dest_ends = c.dest_ends;
             let feeder = tokio::spawn(async move {
                 // give the upload a head start so that the queues are full when the download begins
                 tokio::time::sleep(Duration::from_millis(200)).await;
-                for ch in down2.chunks(piece) {
+                let n = down2.chunks(piece).count();
+                for (k, ch) in down2.chunks(piece).enumerate() {
                     let _ = origin2.to_client.send(PeerMsg::Data(Bytes::copy_from_slice(ch)));
-                    tokio::time::sleep(Duration::from_millis(2)).await;
+                    if k + 1 < n || !dest_ends {
+                        tokio::time::sleep(Duration::from_millis(2)).await;
+                    }
+                }
+                if dest_ends {
+                    // back to back with the last piece
+                    let _ = origin2.to_client.send(PeerMsg::Eof);
                 }
             });
             let (reader, writer): (tokio::task::JoinHandle<(Vec<u8>, Option<u128>)>, tokio::task::JoinHandle<usize>) = match cli {
@@ -195,6 +210,26 @@ impl Suite for BackPressureSuite {
             // the download must get through while the upload is still refused
             tokio::time::sleep(Duration::from_secs(6)).await;
             let _ = feeder.await;
+            if c.dest_ends {
+                // the download and its end must have come through although the upload never moved;
+                // the upload itself ends with the tunnel
+                let (got, done_at) = match tokio::time::timeout(Duration::from_secs(100), reader).await {
+                    Ok(Ok(x)) => x,
+                    _ => (vec![], None),
+                };
+                writer.abort();
+                ensure!(
+                    got.len() >= down_total && done_at.is_some_and(|t| t <= 5200),
+                    "tunnel:download-stalled-behind-blocked-upload",
+                    "{}, the destination ends its stream behind its last piece: after the 5 s allowed the client has {} of {} download bytes (complete after {:?} ms)",
+                    what,
+                    got.len().min(down_total),
+                    down_total,
+                    done_at
+                );
+                ensure!(got[..down_total] == down_data[..], "tunnel:download-differs", "{}: download bytes differ", what);
+                return Ok(());
+            }
             // open the gate: the rest of the upload follows
             origin.set_accepting(true);
             let expected_up = pat(0x33, 0, up_total);
